@@ -72,7 +72,14 @@ class NadaFunction(Generic[T, R]):
         source_ref: SourceRef,
         child: NadaType,
     ):
-        if issubclass(return_type, ScalarType) and return_type.mode == Mode.CONSTANT:
+        if not (isinstance(return_type, type) and issubclass(return_type, ScalarType)):
+            # The function record carries the return type by class name, which describes
+            # a scalar type completely and a collection not at all ("Array").
+            raise TypeError(
+                f"Nada function '{function.__name__}' must return a scalar type, "
+                f"not {getattr(return_type, '__name__', return_type)}"
+            )
+        if return_type.mode == Mode.CONSTANT:
             raise NotAllowedException(
                 "Nada functions with literal return types are not allowed"
             )
